@@ -1473,9 +1473,9 @@ def check_sessions(ctx, cases, Rs):
 
 def check_glue(ctx, cases, Rs):
     """mxlpy's own stage on every imported document: `genModule (importSym <pysbml model>)` against the module text"""
-    # (stratum `shadow`: the renaming of a parameter that would shadow a name the body calls happens in the text
-    #  generation of `sympy_to_python_fn`, below the level of `genModule`, whose bodies are opaque: numbers only there)
-    todo = [(c, R["glue"]) for c, R in zip(cases, Rs) if "glue" in R and c["kind"] != "shadow"]
+    # (stratum `shadow` included: the names each printed body calls travel with the abstraction, `shadowRename` gives the
+    #  parameter names of the written functions)
+    todo = [(c, R["glue"]) for c, R in zip(cases, Rs) if "glue" in R]
     for c, R in zip(cases, Rs):
         if "glue_err" in R:
             ctx.violation({k: c.get(k) for k in ("kind", "doc", "states", "watch", "stem", "raw", "finding")}, R["glue_err"],
